@@ -40,6 +40,38 @@ func main() {
 		os.Exit(2)
 	}
 	if *replay != "" {
+		if ch.Build != "" && os.Getenv("VERIF_IN_REPLAY") == "" {
+			// replays of instrumented checks need the instrumented worker
+			bin, cleanup, err := buildInstrumented(ch.Build)
+			if err != nil {
+				fmt.Fprintln(os.Stderr, "HARNESS-ERROR:", err)
+				if cleanup != nil {
+					cleanup()
+				}
+				os.Exit(3)
+			}
+			env := os.Environ()
+			if ch.Prepare != nil {
+				e, c2, err := ch.Prepare(*tier)
+				if err == nil {
+					env = append(env, e...)
+					if c2 != nil {
+						defer c2()
+					}
+				}
+			}
+			cmd := exec.Command(bin, id, "--tier", *tier, "--replay", *replay)
+			cmd.Env = append(env, "VERIF_IN_REPLAY=1")
+			cmd.Stdout, cmd.Stderr = os.Stdout, os.Stderr
+			err = cmd.Run()
+			cleanup()
+			if ee, ok := err.(*exec.ExitError); ok {
+				os.Exit(ee.ExitCode())
+			} else if err != nil {
+				os.Exit(3)
+			}
+			os.Exit(0)
+		}
 		os.Exit(checks.Replay(ch, *replay))
 	}
 	if *shard >= 0 {
